@@ -12,7 +12,7 @@ import (
 func init() {
 	register("C15", &ruleSet{
 		run:    runC15,
-		floors: map[string]int{"O1": 2, "O2": 1, "O3": 2, "O4": 2},
+		floors: map[string]int{"O1": 2, "O2": 1, "O3": 2, "O4": 2, "O5": 1},
 		explain: "Decides structurally, for the limit types that expose a no-load RTT (Vegas, Gradient): (O1) the baseline measurement is written only through " +
 			"Add(float64(rtt)) with the current sample's RTT, Reset(), or replacement by a freshly allocated measurement, so it always equals an RTT observed since the last " +
 			"reset; (O2) MinimumMeasurement.Add stores only the sample, and only on the edge 'unset or sample < old'; (O3) on every OnSample path the baseline was reset / " +
@@ -27,6 +27,8 @@ func runC15(p *Prog, l *Ledger) {
 	l.Rule("O1", "baseline writers: only Add(float64(rtt of this sample)), Reset(), or replacement by a fresh measurement")
 	l.Rule("O2", "minimum discipline: MinimumMeasurement.Add stores exactly the sample and only when unset or sample < old")
 	l.Rule("O3", "after every OnSample the baseline is unset/reset, was fed this rtt, or the path established not(rtt < baseline)")
+	l.Rule("O5", "the baseline belongs to its limit (decided by the C17/O6 rule on the same tree): no baseline measurement is shared between instances through a package-level variable, or one limit's baseline would hold RTTs another limit observed")
+	importObligations(p, l, "C17", "O5", func(o *Obligation) bool { return o.Rule == "O6" })
 	l.Rule("O4", "probe bookkeeping: counter advanced exactly once per sample when probing is enabled; probe branch re-arms it from a fresh random draw and resets/replaces the baseline on the same path; no other baseline reset")
 	l.NotCovered = []string{"numeric staleness bounds (depend on the estimate trajectory and the jitter draw)", "user-supplied baseline measurements"}
 
